@@ -25,6 +25,8 @@ where
     let rightbound = sbbox.max.x.min(cbbox.max.x);
 
     while let Some(event) = event_queue.pop() {
+        #[cfg(geo_booleanop_verif)]
+        super::verif_hooks::count_event();
         #[cfg(feature = "debug-booleanop")]
         {
             println!("\n{{\"processEvent\": {}}}", event.to_json_debug());
